@@ -28,11 +28,19 @@ class ConnectionError(RequestException):  # noqa: A001 - mirrors requests' name
 class Response:
     def __init__(self):
         self.status_code = None
-        self.content = b""
+        self._content = b""
         self.headers = {}
         self.url = None
         self.reason = None
         self.encoding = "utf-8"
+
+    @property
+    def content(self):  # a class-level property, like requests (tests patch it)
+        return self._content
+
+    @content.setter
+    def content(self, value):
+        self._content = value
 
     @property
     def text(self):
